@@ -42,7 +42,7 @@ Proof.
   unfold plist_line_fix. pose proof (strip_conds_total l) as H.
   destruct (strip_conds l) as [text|]; [|congruence].
   destruct text as [|c t]; [discriminate|].
-  destruct (plist_line_start c); [|discriminate].
+  destruct (plist_line_start c); [|destruct (unexec_rmdir (c :: t)); discriminate].
   destruct (str_eqb (first_part (c :: t)) pkgmandir); [discriminate|].
   destruct (str_eqb (first_part (c :: t)) [109;97;110]); discriminate.
 Qed.
@@ -386,7 +386,7 @@ Qed.
 Lemma plist_line_fix_shrinks l l' : plist_line_fix l = LKeep l' -> l' = l \/ (length l' < length l)%nat.
 Proof.
   unfold plist_line_fix. destruct (strip_conds l) as [[|c t]|]; try discriminate.
-  destruct (plist_line_start c); [|intro H; inversion H; left; reflexivity].
+  destruct (plist_line_start c); [|destruct (unexec_rmdir (c :: t)); intro H; [discriminate|inversion H; left; reflexivity]].
   destruct (str_eqb (first_part (c :: t)) pkgmandir).
   - destruct (count_pkgmandir l =? 1); intro H; inversion H; [|left; reflexivity].
     destruct (replace_first_length pkgmandir_slash man_slash l) as [E|E]; [left; exact E|right].
